@@ -619,6 +619,12 @@ def into_iter_collect_to_env(s, rewrites=None):
         if rewrites is not None:
             rewrites.append('D19 %s collected' % m.group(1))
         return 'into_vec(%s)' % m.group(1)
+    def rep3(m):
+        if rewrites is not None:
+            rewrites.append('D19 %s cloned into a set' % m.group(1))
+        return 'cloned_into_set(%s)' % m.group(1)
+    # `X.iter().cloned().collect()` where the binding is annotated as a HashSet: an environment function with that meaning
+    s = re.sub(r'(HashSet<[^=;\n]*> =\s*)(\w+)\.iter\(\)\.cloned\(\)\.collect\(\)', lambda m: m.group(1) + rep3(re.match(r'(\w+)', m.group(2))), s)
     s = re.sub(r'\b(\w+)\.into_iter\(\)\.collect::<\s*HashSet<[^>]*>\s*>\(\)', rep1, s)
     return re.sub(r'\b(\w+)\.into_iter\(\)\.collect\(\)', rep2, s)
 
